@@ -460,12 +460,12 @@ func raceDefaults() raceParams {
 		Waves:    8,
 		Writers:  envInt("C14_WRITERS", 8),
 		Ballast:  envInt("C14_BALLAST", 2),
-		BaseTTL:  600,
+		BaseTTL:  ev.Pick(600, 1200),
 		WaveStep: 110,
 	}
 }
 
-const raceRule = "rounds of 8 waves x 800 (thorough 2500) points, each wave loaded as one pipelined batch with one TTL (0.6 s + 0.11 s per wave) so that single sweeps remove hundreds to thousands of objects; " +
+const raceRule = "rounds of 8 waves x 800 (thorough 2500) points, each wave loaded as one pipelined batch with one TTL (0.6 s, thorough 1.2 s, + 0.11 s per wave) so that single sweeps remove hundreds to thousands of objects; " +
 	"from 150 ms before the first deadline until 300 ms after the last, 8 connections lift the deadline of objects of the wave whose deadline is nearest (disjoint shares, order and operation drawn through rapid: SET without EX 50 %, PERSIST 25 %, EXPIRE 1000 12 %, SET EX 1000 12 %), " +
 	"and 2 connections keep the exclusive lock busy with unlogged SET ... XX of a 3000-point polygon; every 6th write re-reads an object whose deadline was lifted earlier. After a canary-proved sweep the key is listed and the append-only file parsed. " +
 	"Oracle: an acknowledged deadline-lifting write is never undone (object served by every later read: stale-timer; no expiry del behind it in the log: aof-spurious-del); a PERSIST/EXPIRE answered 0 must not precede the earliest deadline; untouched objects are gone after the witness sweep. " +
